@@ -74,6 +74,10 @@ def gen_cases(tier, seed):
             dict(shape=[32, 32], accel=6, calib=[8, 6], tol=0.1, seed=1, crop=True)]
     for a, b in ((0, 1), (1, 2), (0, 2)):
         cases.append(dict(kind="hist", cfg1=cfgs[a], cfg2=cfgs[b], depth=4 if T else 3))
+    # same geometry, different seeds (state keyed on the geometry only would leak between seeds)
+    for base in (dict(shape=[32, 32], accel=4, calib=[4, 4], tol=0.1, crop=True), dict(shape=[64, 64], accel=6, calib=[0, 0], tol=0.1, crop=False)):
+        for sa, sb in ((0, 5), (1, 2)):
+            cases.append(dict(kind="hist", cfg1=dict(base, seed=sa), cfg2=dict(base, seed=sb), depth=4 if T else 3))
     return cases
 
 
